@@ -13,19 +13,15 @@ EXTENDS CylinderSets, TLC, Json, IOUtils, SequencesExt
 
 Thorough == IOEnv.TIER = "thorough"
 AxisQ == IF Thorough THEN MC_AxisQuatsThorough ELSE MC_AxisQuatsQuick
-BasesR == IF Thorough THEN MC_Bases ELSE MC_OneBase
-StartsR == IF Thorough THEN MC_StartsThorough ELSE MC_StartsQuick
+BasesR == MC_OneBase
+StartsR == MC_StartsQuick     \* the export is evaluated by a single TLC thread: thorough widens axes and directions only
 DirsR == IF Thorough THEN MC_DirsThorough ELSE MC_DirsQuick
 
 Cyls == { MkCyl(q, b, r, h) : q \in AxisQ, b \in BasesR, r \in {1, 2}, h \in {1, 3} }
 
 RayCase(c, s, n) ==
-    LET ray == [s |-> s, n |-> n]
-    IN [c |-> c, s |-> s, n |-> n,
-        cls |-> RayClass(c, ray),
-        exact |-> ExactCase(c, ray),
-        len |-> PathLength(c, ray),
-        grazing |-> Grazing(c, ray)]
+    LET S == RaySummary(c, [s |-> s, n |-> n])
+    IN [c |-> c, s |-> s, n |-> n, cls |-> S.cls, exact |-> S.exact, len |-> S.len, grazing |-> S.grazing]
 RayCases == { RayCase(c, s, n) : c \in Cyls, s \in StartsR, n \in DirsR }
 
 (* every class of rays occurs, also among the cases with a rational length *)
